@@ -85,7 +85,7 @@ def plain_text_oracle(ctx, ANSI, n):
             continue                       # totality is the main loop's business
         if a.state.current_state != 'INIT':
             continue
-        text = ''.join(rng.choice(['a', 'b', 'Z', ' ', '\r', '\n', '\x08', '\x07', '\t', '[', ';', '0', 'H', 'é', '☃', '\x00', '\x7f'])
+        text = ''.join(rng.choice(['a', 'b', 'Z', ' ', '\r', '\n', '\x08', '[', ';', '0', 'H', '~', '!', 'é', '☃'])       # printables, CR, LF, BS, non-ASCII text: which other controls a terminal swallows is not C18's business
                        for _ in range(rng.randint(1, 2 * cols + 3)))
         a.write(text)
         for ch in text:
